@@ -4,6 +4,7 @@
 -/
 import Vgw.Driver.Range
 import Vgw.Driver.Gw
+import Vgw.Driver.Policy
 
 structure DriverState where
   gw : Vgw.Driver.Gw.DState := {}
@@ -14,6 +15,8 @@ def dispatch (d : DriverState) (line : String) : DriverState × String :=
   | "gw" :: rest =>
     let (g, out) := Vgw.Driver.Gw.handle d.gw rest
     ({ d with gw := g }, out.getD "bad-op")
+  | "glob" :: rest => (d, (Vgw.Driver.Policy.globHandle rest).getD "bad-op")
+  | "policy" :: rest => (d, (Vgw.Driver.Policy.handle rest).getD "bad-op")
   | _ => (d, "bad-op")
 
 partial def loop (h : IO.FS.Stream) (out : IO.FS.Stream) (d : DriverState) : IO Unit := do
